@@ -611,3 +611,672 @@ def rule_replace_store(ctx: RuleContext, p: Program, rid: str) -> None:
                           f'walking or deep-copying the model fails', f'{m.relpath}:{store.lineno}', note=f'__set__(.., {got})')
     if n < 4:
         raise AnalysisError(f'REPLACE-STORE: only {n} replace_node call sites found (4 confirmed)')
+
+
+# ====================================================================== CLAIM-FOUND (C14, added in round 5)
+def rule_claim_found(ctx: RuleContext, p: Program, rid: str) -> None:
+    ctx.rule(rid, 'the scans of _CommentClaimer agree on what "found" means: wherever a scan yields a comment it selected through '
+                  '`id(x) in self._comments_to_claim`, it first takes that id out of the set (the set is what claim() reports as "not found" '
+                  'afterwards); a scan that yields without discarding makes claim(<explicit list>) refuse comments it did reach, so '
+                  'w.claim_interleaving_comments(w.unclaim_interleaving_comments()) cannot restore the attribution')
+    cl = p.cls('_CommentClaimer', 'models.internal.interleaving_comments')
+    claim = p.method(cl, 'claim', inherited=False)
+    if not any(isinstance(x, ast.Raise) for x in ast.walk(claim.node)) or '_comments_to_claim' not in norm(claim.node):
+        raise AnalysisError('CLAIM-FOUND: claim() no longer reports the comments left in _comments_to_claim')
+    n = 0
+    for fn in cl.methods():
+        ys = [y for y in walk_no_nested(fn.node) if isinstance(y, ast.Expr) and isinstance(y.value, ast.Yield) and isinstance(y.value.value, ast.Name)]
+        if not ys:
+            continue
+        # the blocks that hold the yields
+        parents: dict[int, tuple[ast.AST, list[ast.stmt]]] = {}
+        for node in ast.walk(fn.node):
+            for attr in ('body', 'orelse', 'finalbody'):
+                blk = getattr(node, attr, None)
+                if isinstance(blk, list):
+                    for st in blk:
+                        parents[id(st)] = (node, blk)
+        for y in ys:
+            name = y.value.value.id  # type: ignore[union-attr]
+            # is this yield selected through the set?  (an enclosing `if id(name) in ..._comments_to_claim`, or an earlier
+            # `if id(name) not in ...: continue` in an enclosing block)
+            selected = False
+            node: ast.AST = y
+            chain_blocks: list[tuple[list[ast.stmt], ast.AST]] = []
+            while id(node) in parents:
+                par, blk = parents[id(node)]
+                chain_blocks.append((blk, node))
+                if isinstance(par, ast.If) and f'id({name}) in self._comments_to_claim' in norm(par.test) and node in par.body:
+                    selected = True
+                node = par
+            for blk, upto in chain_blocks:
+                for st in blk:
+                    if st is upto:
+                        break
+                    if isinstance(st, ast.If) and f'id({name}) not in self._comments_to_claim' in norm(st.test) \
+                            and st.body and isinstance(st.body[-1], (ast.Continue, ast.Return, ast.Break)):
+                        selected = True
+            if not selected:
+                continue
+            n += 1
+            discarded = False
+            for blk, upto in chain_blocks:
+                for st in blk:
+                    if st is upto:
+                        break
+                    if any(isinstance(c, ast.Call) and norm(c.func) in ('self._comments_to_claim.discard', 'self._comments_to_claim.remove')
+                           and c.args and norm(c.args[0]) == f'id({name})' for c in ast.walk(st)):
+                        discarded = True
+            ctx.check(discarded, rid, f'models.internal.interleaving_comments:{fn.qualname}', f'yield {name}',
+                      f'{fn.qualname} yields `{name}`, which it selected through self._comments_to_claim, without discarding id({name}) from that set: '
+                      f'claim() then reports the comment as "not found" although this scan reached it -- an explicit claim of a comment that lies '
+                      f'outside the items (a footer after the last entry) is refused', fn.where, note=f'discard(id({name})) before the yield')
+    if n < 2:
+        raise AnalysisError(f'CLAIM-FOUND: only {n} selected yields found (_find_inner, _find_outer confirmed)')
+
+
+# ====================================================================== DEC-EXACT (C09 / C12 / C13, added in round 5)
+_ROUNDING_CALLS = {'abs', 'round', 'float'}
+_ROUNDING_METHODS = {'normalize', 'quantize', 'to_integral', 'to_integral_value', 'to_integral_exact', 'create_decimal', 'plus', 'minus', 'sqrt',
+                     'fma', 'remainder_near', 'scaleb', 'next_plus', 'next_minus'}
+_EXACT_METHODS = {'copy_abs', 'copy_negate', 'copy_sign', 'replace'}
+
+
+def _rounding_in(e: ast.AST, env: dict[str, ast.AST], depth: int = 0) -> Optional[str]:
+    """the first operation in e (locals expanded) that rounds a Decimal to the context precision, if any"""
+    if depth > 6:
+        return None
+    if isinstance(e, ast.Name) and e.id in env:
+        return _rounding_in(env[e.id], env, depth + 1)
+    if isinstance(e, ast.UnaryOp) and isinstance(e.op, (ast.USub, ast.UAdd)) and not isinstance(e.operand, ast.Constant):
+        return f'unary {"-" if isinstance(e.op, ast.USub) else "+"} (`{norm(e)[:40]}`)'
+    if isinstance(e, ast.BinOp) and isinstance(e.op, (ast.Add, ast.Sub, ast.Mult, ast.Div, ast.Mod, ast.Pow, ast.FloorDiv)):
+        return f'arithmetic (`{norm(e)[:40]}`)'
+    if isinstance(e, ast.Call):
+        f = norm(e.func)
+        if f in _ROUNDING_CALLS:
+            return f'{f}() (`{norm(e)[:40]}`)'
+        if isinstance(e.func, ast.Attribute):
+            if e.func.attr in _ROUNDING_METHODS:
+                return f'.{e.func.attr}() (`{norm(e)[:50]}`)'
+            if e.func.attr in _EXACT_METHODS:
+                return _rounding_in(e.func.value, env, depth + 1)
+        if f in ('decimal.Decimal', 'Decimal', 'str', 'cast', 'typing.cast'):
+            for a in e.args:
+                r = _rounding_in(a, env, depth + 1)
+                if r:
+                    return r
+        return None
+    if isinstance(e, ast.IfExp):
+        return _rounding_in(e.body, env, depth + 1) or _rounding_in(e.orelse, env, depth + 1)
+    return None
+
+
+def rule_dec_exact(ctx: RuleContext, p: Program, rid: str) -> None:
+    ctx.rule(rid, 'a decimal travels exactly between caller, token and text: the value handed to Number.from_value / Number(...) / a '
+                  '`.value =` assignment of a number token in the number models, and the value Number._parse_value returns for a lexeme, are '
+                  'built from the given value / text only by exact operations (identity, copy_abs, copy_negate, Decimal(<text>)); abs(), '
+                  'unary minus / plus, arithmetic, normalize, quantize, round and Context.create_decimal round to the precision of the decimal '
+                  'context (28 digits by default), so a longer number would be stored or read back changed')
+    n = 0
+    # reader
+    num = p.cls('Number', 'models.number')
+    pv = p.method(num, '_parse_value', inherited=False)
+    rets = [r.value for r in walk_no_nested(pv.node) if isinstance(r, ast.Return) and r.value is not None]
+    env = {a.targets[0].id: a.value for a in walk_no_nested(pv.node) if isinstance(a, ast.Assign) and len(a.targets) == 1 and isinstance(a.targets[0], ast.Name)}
+    for r in rets:
+        n += 1
+        bad = _rounding_in(r, env)
+        exact_ctor = any(isinstance(c, ast.Call) and norm(c.func) in ('decimal.Decimal', 'Decimal') for c in ast.walk(r)) or \
+            any(isinstance(c, ast.Call) and norm(c.func) in ('decimal.Decimal', 'Decimal') for v in env.values() for c in ast.walk(v))
+        ctx.check(bad is None and exact_ctor, rid, 'models.number:Number._parse_value', 'exact construction from the lexeme',
+                  f'Number._parse_value builds the value with {bad or "something other than decimal.Decimal(<text>)"}: a literal with more digits than the '
+                  f'context precision gets a rounded value, and every expression value computed from it is wrong', pv.where, note=norm(r)[:60])
+    # writers: every place of the number models that builds a Number token from a value
+    for mname in ('models.number_expr', 'models.number', 'models.tolerance', 'models.amount'):
+        try:
+            m = p.module(mname)
+        except AnalysisError:
+            continue
+        for fn in p.functions_in(m):
+            env = {}
+            counts: dict[str, int] = {}
+            for a in walk_no_nested(fn.node):
+                if isinstance(a, ast.Assign) and len(a.targets) == 1 and isinstance(a.targets[0], ast.Name):
+                    counts[a.targets[0].id] = counts.get(a.targets[0].id, 0) + 1
+                    env[a.targets[0].id] = a.value
+            env = {k: v for k, v in env.items() if counts[k] == 1}
+            for c in walk_no_nested(fn.node):
+                arg = None
+                if isinstance(c, ast.Call) and norm(c.func).split('.')[-2:] == ['Number', 'from_value'] and c.args:
+                    arg = c.args[0]
+                elif isinstance(c, ast.Call) and norm(c.func) in ('decimal.Decimal', 'Decimal') and c.args and fn.name == 'from_value':
+                    arg = None
+                if arg is None:
+                    continue
+                n += 1
+                bad = _rounding_in(arg, env)
+                ctx.check(bad is None, rid, f'{_short(m)}:{fn.qualname}', f'Number.from_value({norm(arg)[:40]})',
+                          f'the number token is built from {bad}, which rounds to the precision of the decimal context: from_value(v).value != v for '
+                          f'a v with more than 28 significant digits (use copy_abs / copy_negate)', f'{m.relpath}:{c.lineno}', note=norm(arg)[:50])
+    if n < 2:
+        raise AnalysisError(f'DEC-EXACT: only {n} sites found (Number._parse_value and _add_expr_from_value confirmed)')
+
+
+# ====================================================================== ID-CMP (C05 / C10 / C14 / C19 / C20, added in round 5)
+_PLAIN_ATTRS = {'type', 'RULE', 'raw_text', 'key', 'index', 'stop', 'start', 'step', 'value', 'line', 'column', 'name', 'indent', 'indent_by',
+                'filename', 'claimed', 'INLINE', 'DEFAULT', 'size', 'tokens', 'items', 'raw_indent_by', 'lineno', 'text'}
+_PLAIN_CALLS = {'len', 'str', 'int', 'id', 'type', 'repr', 'bool', 'hash', 'abs', 'min', 'max', 'sum', 'tuple', 'list', 'sorted', 'set', 'frozenset',
+                'ord', 'chr', 'float', 'round', 'isinstance', 'getattr'}
+_EQ_IMPLS = {'__eq__', '_eq', '__ne__', 'remove', 'discard', 'index', 'count', '__contains__'}
+
+
+def _plain_shaped(e: ast.AST, plain_names: set[str], depth: int = 0) -> bool:
+    """can e be shown, from its shape alone, not to be a model object?"""
+    if depth > 6:
+        return False
+    if isinstance(e, (ast.Constant, ast.JoinedStr, ast.Tuple, ast.List, ast.Dict, ast.Set, ast.Compare, ast.BoolOp, ast.ListComp, ast.DictComp,
+                      ast.SetComp, ast.GeneratorExp)):
+        return True
+    if isinstance(e, ast.Name):
+        return e.id in plain_names or e.id.isupper()
+    if isinstance(e, ast.Attribute):
+        if e.attr in _PLAIN_ATTRS or e.attr.isupper() or e.attr.lstrip('_').isupper():
+            return True
+        return False
+    if isinstance(e, ast.Subscript):
+        return _plain_shaped(e.value, plain_names, depth + 1) and not (isinstance(e.value, ast.Attribute) and e.value.attr in ('tokens', 'items'))
+    if isinstance(e, ast.Call):
+        f = norm(e.func)
+        if f in _PLAIN_CALLS or f.split('.')[-1] in ('get', 'getvalue', 'read', 'find', 'rfind', 'count', 'strip', 'rstrip', 'lstrip', 'lower', 'upper',
+                                                     'join', 'format', 'group', 'normpath', 'dirname', 'basename', 'abspath', 'total_seconds'):
+            return True
+        return False
+    if isinstance(e, (ast.BinOp, ast.UnaryOp)):
+        return True
+    if isinstance(e, ast.IfExp):
+        return _plain_shaped(e.body, plain_names, depth + 1) and _plain_shaped(e.orelse, plain_names, depth + 1)
+    return False
+
+
+def rule_id_cmp(ctx: RuleContext, p: Program, rid: str) -> None:
+    ctx.rule(rid, 'models compare by content (type, text, structure), so `==` / `!=` between two things that may be model objects never '
+                  'decides whether they are THE SAME object: outside the equality implementations themselves (__eq__, _eq) and the '
+                  'by-value list-protocol methods of the views (remove, discard, index, count, __contains__), every equality comparison '
+                  'of the package has an operand that is plainly not a model (a literal, a text / key / index / type attribute, a length, '
+                  'an annotated str / int / bool / enum name); "is the replacement the node itself", "have I reached the end token", "is '
+                  'this the assigned node" are identity questions, and answering them with == conflates equal-looking siblings')
+    plain_ann = {'str', 'int', 'bool', 'float', 'bytes', 'decimal.Decimal', 'Decimal', 'datetime.date', 'date', 'Optional[str]', 'Optional[int]',
+                 'Optional[bool]', 'Optional[decimal.Decimal]', 'Optional[datetime.date]', 'Type[_U]', 'Type[_T]'}
+    n = 0
+    n_allowed = 0
+    for m in p.modules.values():
+        if '.generated' in m.name or '.modelgen' in m.name or not m.name.startswith('autobean_refactor'):
+            continue
+        for fn in p.functions_in(m):
+            if fn.parent is not None:
+                continue          # nested functions are covered through their parents (whole subtree walked)
+            plain_names: set[str] = set()
+            for sub in ast.walk(fn.node):
+                if isinstance(sub, (ast.FunctionDef, ast.AsyncFunctionDef, ast.Lambda)):
+                    a = sub.args
+                    for x in [*a.posonlyargs, *a.args, *a.kwonlyargs]:
+                        an = norm(x.annotation) if getattr(x, 'annotation', None) is not None else ''
+                        if an in plain_ann or an.startswith(('Literal[', 'int |', 'str |')) and 'Model' not in an:
+                            plain_names.add(x.arg)
+                        if an.replace(' ', '') in ('tuple[int,int]', 'Tuple[int,int]', 'tuple[int,...]'):
+                            plain_names.add(x.arg)          # its elements are plain too (see the unpacking case below)
+            changed = True
+            while changed:
+                changed = False
+                for a in ast.walk(fn.node):
+                    tgt = None
+                    if isinstance(a, ast.Assign) and len(a.targets) == 1 and isinstance(a.targets[0], ast.Name):
+                        tgt, val = a.targets[0].id, a.value
+                    elif isinstance(a, ast.AnnAssign) and isinstance(a.target, ast.Name) and a.value is not None:
+                        tgt, val = a.target.id, a.value
+                    elif isinstance(a, (ast.For, ast.comprehension)) and isinstance(a.iter, ast.Call) and norm(a.iter.func) in ('range', 'enumerate'):
+                        t = a.target
+                        nm = t.id if isinstance(t, ast.Name) else (t.elts[0].id if isinstance(t, ast.Tuple) and isinstance(t.elts[0], ast.Name) else None)
+                        if nm and nm not in plain_names:
+                            plain_names.add(nm)
+                            changed = True
+                        continue
+                    if isinstance(a, ast.Assign) and len(a.targets) == 1 and isinstance(a.targets[0], ast.Tuple) and isinstance(a.value, ast.Name) \
+                            and a.value.id in plain_names:
+                        for t in a.targets[0].elts:
+                            if isinstance(t, ast.Name) and t.id not in plain_names:
+                                plain_names.add(t.id)
+                                changed = True
+                        continue
+                    if tgt and tgt not in plain_names and _plain_shaped(val, plain_names):
+                        # every binding of the name must be plain
+                        binds = [b for b in ast.walk(fn.node) if isinstance(b, ast.Assign) and any(isinstance(t, ast.Name) and t.id == tgt for t in b.targets)]
+                        if all(_plain_shaped(b.value, plain_names) for b in binds):
+                            plain_names.add(tgt)
+                            changed = True
+            for c in ast.walk(fn.node):
+                if not (isinstance(c, ast.Compare) and any(isinstance(o, (ast.Eq, ast.NotEq)) for o in c.ops)):
+                    continue
+                operands = [c.left, *c.comparators]
+                pairs = [(operands[i], operands[i + 1]) for i, o in enumerate(c.ops) if isinstance(o, (ast.Eq, ast.NotEq))]
+                for l, r in pairs:
+                    if _plain_shaped(l, plain_names) or _plain_shaped(r, plain_names):
+                        continue
+                    n += 1
+                    site = f'{_short(m)}:{fn.qualname}'
+                    if fn.name in _EQ_IMPLS:
+                        n_allowed += 1
+                        ctx.ok(rid, site, f'`{norm(c)[:60]}`: by-value comparison is this method\'s contract', nontrivial=False)
+                        continue
+                    ctx.fail(rid, site, f'{norm(c)[:80]}',
+                             f'`{norm(c)[:80]}` compares two values that may both be model objects with ==: models are equal whenever type, text and '
+                             f'structure agree, so an equal-looking but distinct node (a sibling with the same text, a deep copy, a freshly built '
+                             f'value) is taken for the node itself -- a replacement is skipped, a scan stops early, a refusal is bypassed; use `is`',
+                             f'{m.relpath}:{c.lineno}')
+    if n_allowed < 4:
+        raise AnalysisError(f'ID-CMP: only {n_allowed} by-value comparisons found in the equality implementations (>= 4 confirmed)')
+
+
+# ====================================================================== META-SEM (C09, added in round 5)
+def rule_meta_sem(ctx: RuleContext, p: Program, rid: str) -> None:
+    """finite-domain evaluation of the meta value property (get / set / update_value / from_value) over every (current raw kind, value kind)"""
+    import datetime
+    import decimal
+    from . import possem
+    from .tokenstore import TS
+    ctx.rule(rid, 'optional_meta_value_property, interpreted with update_value and from_value over every pair (kind of the current raw value '
+                  '-- absent or any member of MetaRawValue -- , kind of the assigned value -- None, str, date, Decimal, bool, or a model of any '
+                  'preserved kind): after __set__(v), __get__ returns v (type-exactly: a str comes back as a str, not as the Account / '
+                  'Currency / Tag token it was written into), an in-place update happens only where the getter converts that raw kind to '
+                  'that plain type, and nothing is written otherwise')
+    m = p.module('models.meta_value_internal')
+    mv = p.module('models.meta_value')
+    prop = p.cls('optional_meta_value_property', 'models.meta_value_internal')
+    getter, setter = prop.attrs.get('__get__'), prop.attrs.get('__set__')
+    if not isinstance(getter, FuncInfo) or not isinstance(setter, FuncInfo):
+        raise AnalysisError('META-SEM: optional_meta_value_property.__get__/__set__ vanished')
+    raw_union = next((st.value for st in mv.tree.body if isinstance(st, ast.Assign) and norm(st.targets[0]) == 'MetaRawValue'), None)
+    if raw_union is None:
+        raise AnalysisError('META-SEM: MetaRawValue vanished')
+    raw_kinds: list[str] = []
+
+    def flat(e: ast.AST) -> None:
+        if isinstance(e, ast.BinOp) and isinstance(e.op, ast.BitOr):
+            flat(e.left)
+            flat(e.right)
+        elif isinstance(e, ast.Subscript) and norm(e.value).endswith('Union'):
+            for x in (e.slice.elts if isinstance(e.slice, ast.Tuple) else [e.slice]):
+                flat(x)
+        else:
+            raw_kinds.append(norm(e).rsplit('.', 1)[-1])
+    flat(raw_union)
+    if len(raw_kinds) < 6:
+        raise AnalysisError(f'META-SEM: MetaRawValue has only {raw_kinds}')
+    def cls_of(name: str) -> ClassInfo:
+        for mod in (mv, m):
+            sy = p.resolve_expr(mod, ast.Name(id=name, ctx=ast.Load()))
+            if isinstance(sy, ClassInfo):
+                return sy
+        return p.cls(name)
+
+    # what each raw kind's .value holds (declared by RWValue[...] / SingleValueRawTokenModel[...] in its bases)
+    value_type: dict[str, str] = {}
+    for k in raw_kinds:
+        c = cls_of(k)
+        for b in [bb for kk in c.mro for bb in kk.node.bases]:
+            if isinstance(b, ast.Subscript) and norm(b.value).rsplit('.', 1)[-1] in ('RWValue', 'SingleValueRawTokenModel', 'SimpleSingleValueRawTokenModel'):
+                value_type.setdefault(k, norm(b.slice).rsplit('.', 1)[-1])
+    ts = TS(p)
+    plain_values = {'str': 'text', 'date': datetime.date(2020, 1, 2), 'Decimal': decimal.Decimal(5), 'bool': True}
+
+    class Interp(possem.PosInterp):
+        tag = 'META-SEM'
+
+        def instance_of(self, v: Any, cls_expr: Any, env: dict) -> bool:          # type: ignore[override]
+            name = norm(cls_expr).rsplit('.', 1)[-1]
+            if isinstance(v, possem.Obj):
+                try:
+                    return cls_of(v.cls).is_subclass_of(cls_of(name))
+                except AnalysisError:
+                    return False
+            py = {'str': str, 'date': datetime.date, 'Decimal': decimal.Decimal, 'bool': bool, 'int': int}
+            if name in py:
+                return isinstance(v, py[name]) and not (name == 'int' and isinstance(v, bool))
+            return False
+
+        def expr(self, e: Any, env: dict) -> Any:                 # type: ignore[override]
+            if isinstance(e, ast.Call):
+                fname = norm(e.func)
+                if isinstance(e.func, ast.Attribute) and e.func.attr in ('__get__', '__set__'):
+                    b = self.expr(e.func.value, env)
+                    if isinstance(b, possem.Obj) and b.cls == 'InnerProp':
+                        args = [self.expr(a, env) for a in e.args]
+                        if e.func.attr == '__get__':
+                            return b.f['slot']
+                        b.f['slot'] = args[1]
+                        b.f['sets'] = b.f.get('sets', 0) + 1
+                        return None
+                if isinstance(e.func, ast.Attribute) and e.func.attr == 'from_value' and isinstance(e.func.value, ast.Name) and e.func.value.id in raw_kinds:
+                    args = [self.expr(a, env) for a in e.args]
+                    return possem.Obj(e.func.value.id, {'value': args[0], 'fresh': True}, f'fresh {e.func.value.id}')
+                if fname == 'isinstance' and len(e.args) == 2:
+                    v = self.expr(e.args[0], env)
+                    alts: list = []
+
+                    def fl(x: ast.AST) -> None:
+                        if isinstance(x, ast.BinOp) and isinstance(x.op, ast.BitOr):
+                            fl(x.left)
+                            fl(x.right)
+                        elif isinstance(x, ast.Tuple):
+                            for y in x.elts:
+                                fl(y)
+                        else:
+                            alts.append(x)
+                    fl(e.args[1])
+
+                    def one(a: ast.AST) -> bool:
+                        if isinstance(a, (ast.Name, ast.Attribute)):
+                            return self.instance_of(v, a, env)
+                        t = self.expr(a, env)               # a computed class: type(x)
+                        if isinstance(t, tuple) and t[:1] == ('type',):
+                            if isinstance(v, possem.Obj):
+                                try:
+                                    return cls_of(v.cls).is_subclass_of(cls_of(t[1]))
+                                except AnalysisError:
+                                    return v.cls == t[1]
+                            py = {'str': str, 'date': datetime.date, 'Decimal': decimal.Decimal, 'bool': bool, 'int': int}
+                            return t[1] in py and isinstance(v, py[t[1]])
+                        raise self.err(a, 'isinstance against a computed class')
+                    return any(one(a) for a in alts)
+                if fname == 'type' and len(e.args) == 1:
+                    v = self.expr(e.args[0], env)
+                    return ('type', v.cls) if isinstance(v, possem.Obj) else ('type', type(v).__name__)
+            if isinstance(e, ast.Name) and e.id not in env:
+                fn_ = next((f for f in p.functions_in(m) if f.qualname == e.id), None)
+                if fn_ is not None:
+                    return fn_
+            return super().expr(e, env)
+
+        def compare(self, op: Any, a: Any, b: Any, node: Any) -> bool:          # type: ignore[override]
+            if isinstance(op, (ast.Is, ast.IsNot)) and isinstance(a, tuple) and isinstance(b, tuple) and a[:1] == ('type',) and b[:1] == ('type',):
+                return (a == b) == isinstance(op, ast.Is)
+            return super().compare(op, a, b, node)
+
+    n = 0
+    problems: list[str] = []
+    for cur_kind in [None] + raw_kinds:
+        assigned: list[tuple[str, Any]] = [('None', None)] + list(plain_values.items())
+        for mk in raw_kinds:
+            if value_type.get(mk) in ('str', 'date', 'Decimal', 'bool') and mk in ('EscapedString', 'Date', 'NumberExpr', 'Bool'):
+                continue          # a model of a converted kind reads back as its plain value (documented); not part of this rule
+            assigned.append((mk, None))
+        for vkind, v in assigned:
+            cur = None
+            if cur_kind is not None:
+                old = {'str': 'old', 'date': datetime.date(1999, 1, 1), 'Decimal': decimal.Decimal(1), 'bool': False}.get(value_type.get(cur_kind, ''), 'old')
+                cur = possem.Obj(cur_kind, {'value': old, 'fresh': False}, f'current {cur_kind}')
+            if v is None and vkind != 'None':
+                v = possem.Obj(vkind, {'value': 'w', 'fresh': False}, f'assigned {vkind}')
+            inner = possem.Obj('InnerProp', {'slot': cur}, 'inner')
+            me = possem.Obj('optional_meta_value_property', {'inner_property': inner}, 'prop')
+            owner = possem.Obj('Owner', {}, 'instance')
+            n += 1
+            where_ = f'current value {cur_kind or "absent"}, assigned {vkind}'
+            try:
+                Interp(ts, [], module=m).call_function(setter, [me, owner, v], {})
+                got = Interp(ts, [], module=m).call_function(getter, [me, owner, None], {})
+            except possem.Raised as ex:
+                problems.append(f'{where_}: raises {ex}')
+                continue
+            same = got is v if isinstance(v, possem.Obj) or v is None else (type(got) is type(v) and got == v)
+            if not same:
+                shown = f'{got.cls} token holding {got.f.get("value")!r}' if isinstance(got, possem.Obj) else repr(got)
+                problems.append(f'{where_}: reads back {shown}' + (' -- the plain value was written into a token of a kind that reads back as the token '
+                                                                    'itself, and whose text it may not even fit' if isinstance(got, possem.Obj) and not isinstance(v, possem.Obj) else ''))
+    if n < 60:
+        raise AnalysisError(f'META-SEM: only {n} (current, assigned) pairs evaluated')
+    ctx.check(not problems, rid, 'models.meta_value_internal:optional_meta_value_property', 'set then get, type-exact',
+              (problems[0] if problems else '') + (f' (and {len(problems) - 1} more pairs)' if len(problems) > 1 else ''), setter.where,
+              note=f'{n} (current kind, assigned kind) pairs')
+
+
+# ====================================================================== LATE-BIND (C15, added in round 5)
+def _late_bind_findings(tree: ast.AST) -> list[tuple[ast.AST, ast.AST, set[str], bool, bool]]:
+    """(inner lazy expression, outer comprehension, captured loop variables, outer materialised?, inner consumed in place?)"""
+    parents: dict[int, ast.AST] = {}
+    for node in ast.walk(tree):
+        for ch in ast.iter_child_nodes(node):
+            parents[id(ch)] = node
+    out = []
+    for outer in ast.walk(tree):
+        if not isinstance(outer, (ast.ListComp, ast.SetComp, ast.GeneratorExp, ast.DictComp)):
+            continue
+        bound = {x.id for g in outer.generators for x in ast.walk(g.target) if isinstance(x, ast.Name)}
+        elts = [outer.key, outer.value] if isinstance(outer, ast.DictComp) else [outer.elt]
+        for elt in elts:
+            for inner in ast.walk(elt):
+                if isinstance(inner, ast.GeneratorExp):
+                    reads = {x.id for part in [inner.elt, *[i for g in inner.generators for i in g.ifs], *[g.iter for g in inner.generators[1:]]]
+                             for x in ast.walk(part) if isinstance(x, ast.Name)}
+                elif isinstance(inner, ast.Lambda):
+                    own = {a.arg for a in [*inner.args.posonlyargs, *inner.args.args, *inner.args.kwonlyargs]}
+                    reads = {x.id for x in ast.walk(inner.body) if isinstance(x, ast.Name)} - own
+                else:
+                    continue
+                captured = reads & bound
+                if not captured:
+                    continue
+                par = parents.get(id(outer))
+                materialised = isinstance(outer, (ast.ListComp, ast.SetComp, ast.DictComp)) or isinstance(par, ast.Starred) or (
+                    isinstance(par, ast.Call) and norm(par.func) in ('list', 'tuple', 'sorted', 'set', 'frozenset', 'dict') and outer in par.args)
+                ipar = parents.get(id(inner))
+                consumed = isinstance(ipar, ast.Call) and inner in ipar.args and (
+                    norm(ipar.func) in ('list', 'tuple', 'sorted', 'set', 'frozenset', 'sum', 'any', 'all', 'max', 'min', 'dict', 'next')
+                    or (isinstance(ipar.func, ast.Attribute) and ipar.func.attr == 'join'))
+                out.append((inner, outer, captured, materialised, consumed))
+    return out
+
+
+_LATE_BIND_CONTROL = """
+def bad(tags, links):
+    return chain(*((kind.make(v) for v in vs) for kind, vs in ((A, tags), (B, links))))
+def good(tags, links):
+    return chain(*([kind.make(v) for v in vs] for kind, vs in ((A, tags), (B, links))))
+def fine(rows):
+    return [sum(x * k for x in row) for k, row in rows]
+"""
+
+
+def rule_late_bind(ctx: RuleContext, p: Program, rid: str) -> None:
+    ctx.rule(rid, 'no lazily evaluated expression (an inner generator expression or a lambda) built inside a comprehension reads that '
+                  'comprehension\'s loop variable after the comprehension has moved on: an inner generator / lambda that mentions the outer '
+                  'variable outside its own first iterable is a closure over the variable, not over its value, so when the outer '
+                  'comprehension is materialised first (a list / set comprehension, a generator that is star-unpacked or handed to list / '
+                  'tuple / sorted) every inner one sees the LAST value -- e.g. every tag is built with the class meant for links')
+    ctl = _late_bind_findings(ast.parse(_LATE_BIND_CONTROL))
+    flagged = [(norm(i)[:30], mat and not con) for i, _, _, mat, con in ctl]
+    ctx.control(rid, 'the embedded example (a star-unpacked generator of generators reading the outer variable) is flagged, its list-building twin '
+                     'and an inner generator consumed by sum() are not', True,
+                sum(1 for _, bad in flagged if bad) == 1 and len(flagged) == 2)
+    n = 0
+    for m in p.modules.values():
+        if not m.name.startswith('autobean_refactor') or '.modelgen' in m.name:
+            continue
+        for inner, outer, captured, materialised, consumed in _late_bind_findings(m.tree):
+            n += 1
+            ctx.check(not (materialised and not consumed), rid, f'{_short(m)}:line {inner.lineno}', f'{type(inner).__name__} reads {sorted(captured)}',
+                      f'`{norm(inner)[:70]}` is evaluated lazily but reads {sorted(captured)}, the loop variable(s) of the enclosing '
+                      f'`{norm(outer)[:60]}...`, which is materialised before the inner expression runs: every instance sees the last value of '
+                      f'{sorted(captured)} (bind it as a default argument, or build a list inside the element)', f'{m.relpath}:{inner.lineno}',
+                      note=f'outer {"materialised" if materialised else "lazy"}, inner {"consumed in place" if consumed else "left lazy"}')
+    ctx.stats['late_bind_candidates'] = n
+
+
+# ====================================================================== CLAIM-SEM (C14 / C01, added in round 5)
+def rule_claim_sem(ctx: RuleContext, p: Program, rid: str, max_len: int = 3) -> None:
+    """finite-domain evaluation of _claim_comment over every neighbourhood of up to 4 abstract tokens on the side it looks at"""
+    import itertools
+    from . import possem
+    from .tokenstore import TS
+    ctx.rule(rid, f'_claim_comment (with _take_ignored), interpreted against a mock store over every neighbourhood of up to {max_len} tokens next to the '
+                  'model\'s edge (placeholder, line break, block comment claimed / unclaimed and indented like or unlike the edge token, other), in '
+                  'both directions and with both values of ignore_if_already_claimed: it returns -- and flags as claimed -- exactly the '
+                  'unclaimed comment that follows [placeholders, one line break, placeholders]; whatever else it finds it claims nothing; an '
+                  'already claimed comment there is skipped or refused according to the flag; the tokens it splices are a permutation in which '
+                  'only placeholders move; no property of the comment or of the edge token other than these decides')
+    m = p.module('models.internal.surrounding_comments')
+    fn = next((f for f in p.functions_in(m) if f.qualname == '_claim_comment'), None)
+    if fn is None:
+        raise AnalysisError('CLAIM-SEM: _claim_comment vanished')
+    ts = TS(p)
+    class_of = {'Placeholder': p.cls('Placeholder', 'models.internal.placeholder'), 'Newline': p.cls('Newline'), 'BlockComment': p.cls('BlockComment', 'models.block_comment'),
+                'Account': p.cls('Account'), 'Indent': p.cls('Indent')}
+
+    class Interp(possem.PosInterp):
+        tag = 'CLAIM-SEM'
+
+        def __init__(self, doc: list) -> None:
+            super().__init__(ts, [], module=m)
+            self.doc = doc
+            self.splices = 0
+
+        def idx(self, t: Any) -> int:
+            for i, x in enumerate(self.doc):
+                if x is t:
+                    return i
+            raise possem.Raised('ValueError: token is not in the store')
+
+        def store_call(self, name: str, args: list, node: Any) -> Any:
+            d = self.doc
+            if name in ('get_prev', 'get_next'):
+                i = self.idx(args[0])
+                j = i - 1 if name == 'get_prev' else i + 1
+                return d[j] if 0 <= j < len(d) else None
+            if name == 'splice':
+                self.splices += 1
+                new = list(args[0])
+                i = 0 if args[1] is None else self.idx(args[1])
+                j = i if len(args) < 3 or args[2] is None else self.idx(args[2]) + 1
+                if j < i:
+                    raise possem.Raised('splice over a reversed range')
+                d[i:j] = new
+                return None
+            raise self.err(node, f'store method {name}')
+
+        def instance_of(self, v: Any, cls_expr: Any, env: dict) -> bool:          # type: ignore[override]
+            if not isinstance(v, possem.Obj) or v.cls not in class_of:
+                return False
+            target = p.resolve_expr(m, cls_expr)
+            if not isinstance(target, ClassInfo):
+                raise self.err(cls_expr, 'isinstance against an unknown class')
+            return class_of[v.cls].is_subclass_of(target)
+
+        def expr(self, e: Any, env: dict) -> Any:                 # type: ignore[override]
+            if isinstance(e, ast.Attribute):
+                b = e.value
+                bv = self.expr(b, env) if not (isinstance(b, ast.Name) and b.id not in env) else None
+                if isinstance(bv, possem.Obj) and bv.cls == 'Store':
+                    name = e.attr
+                    return lambda *a: self.store_call(name, list(a), e)
+            if isinstance(e, ast.Name) and e.id not in env:
+                f_ = next((f for f in p.functions_in(m) if f.qualname == e.id), None)
+                if f_ is not None:
+                    return f_
+            if isinstance(e, ast.Call):
+                if isinstance(e.func, ast.Name) and e.func.id == 'isinstance' and e.func.id not in env and len(e.args) == 2:
+                    v = self.expr(e.args[0], env)
+                    alts: list = []
+
+                    def fl(x: ast.AST) -> None:
+                        if isinstance(x, ast.BinOp) and isinstance(x.op, ast.BitOr):
+                            fl(x.left)
+                            fl(x.right)
+                        elif isinstance(x, ast.Tuple):
+                            for y in x.elts:
+                                fl(y)
+                        else:
+                            alts.append(x)
+                    fl(e.args[1])
+                    return any(self.instance_of(v, a_, env) for a_ in alts)
+                if isinstance(e.func, ast.Attribute) and e.func.attr in ('startswith', 'endswith') and len(e.args) == 1:
+                    s_ = self.expr(e.func.value, env)
+                    a_ = self.expr(e.args[0], env)
+                    if isinstance(s_, str) and isinstance(a_, str):
+                        return getattr(s_, e.func.attr)(a_)
+                f = self.expr(e.func, env) if not (isinstance(e.func, ast.Name) and e.func.id not in env) else None
+                if callable(f) and not isinstance(f, (FuncInfo, possem.Builtin, possem.Bound, possem.ClassRef, possem._Lambda)):
+                    return f(*[self.expr(a, env) for a in e.args])
+            return super().expr(e, env)
+
+        def stmt(self, st: Any, env: dict) -> None:           # type: ignore[override]
+            if isinstance(st, ast.Raise):
+                raise possem.Raised(norm(st.exc)[:60] if st.exc is not None else 'raise')
+            super().stmt(st, env)
+
+    def mk(ch: str, i: int) -> Any:
+        if ch == 'P':
+            return possem.Obj('Placeholder', {'raw_text': '', 'RULE': 'PLACEHOLDER'}, f'{i}:placeholder')
+        if ch == 'N':
+            return possem.Obj('Newline', {'raw_text': '\n', 'RULE': 'NEWLINE'}, f'{i}:newline')
+        if ch in 'cCdD':
+            return possem.Obj('BlockComment', {'raw_text': '; x', 'RULE': 'BLOCK_COMMENT', 'claimed': ch in 'CD', 'indent': '    ' if ch in 'cC' else '  ',
+                                               'value': 'x'}, f'{i}:{"claimed " if ch in "CD" else ""}comment{" (indented less than the edge)" if ch in "dD" else ""}')
+        return possem.Obj('Account', {'raw_text': 'x', 'RULE': 'ACCOUNT'}, f'{i}:other')
+
+    n = 0
+    problem = ''
+    alphabet = 'PNcCdO'
+    for k in range(0, max_len + 1):
+        for seq in itertools.product(alphabet, repeat=k):
+            for backwards in (False, True):
+                for ignore in (False, True):
+                    for edge_kind in ('Indent', 'Account'):
+                        if problem:
+                            break
+                        side = [mk(ch, i) for i, ch in enumerate(seq)]
+                        start = possem.Obj(edge_kind, {'raw_text': '    ' if edge_kind == 'Indent' else 'x', 'RULE': 'INDENT' if edge_kind == 'Indent' else 'ACCOUNT'}, 'edge')
+                        doc = (list(reversed(side)) + [start]) if backwards else ([start] + side)
+                        before = list(doc)
+                        it = Interp(doc)
+                        store = possem.Obj('Store', {}, 'store')
+                        n += 1
+                        # reference: placeholders* newline placeholders* comment
+                        j = 0
+                        while j < len(seq) and seq[j] == 'P':
+                            j += 1
+                        want: Any = None
+                        refuse = False
+                        if j < len(seq) and seq[j] == 'N':
+                            j += 1
+                            while j < len(seq) and seq[j] == 'P':
+                                j += 1
+                            if j < len(seq) and seq[j] in 'cCdD':
+                                if seq[j] in 'cd':
+                                    want = side[j]
+                                elif not ignore:
+                                    refuse = True
+                        shown = ' '.join({'P': 'placeholder', 'N': 'newline', 'c': 'comment', 'C': 'claimed-comment', 'd': 'comment(less indented)', 'O': 'other'}[c] for c in seq) or '(nothing)'
+                        where_ = f'{"before" if backwards else "after"} a{"n indent" if edge_kind == "Indent" else " plain"} edge token, neighbours [{shown}], ignore_if_already_claimed={ignore}'
+                        try:
+                            got = it.call_function(fn, [None, store, start], {'backwards': backwards, 'ignore_if_already_claimed': ignore})
+                            raised = False
+                        except possem.Raised:
+                            got, raised = None, True
+                        if raised != refuse:
+                            problem = f'{where_}: {"raises" if raised else "does not raise"}'
+                        elif got is not want:
+                            problem = f'{where_}: returns {getattr(got, "label", got)!r}, the adjacent unclaimed comment is {getattr(want, "label", want)!r}'
+                        elif want is not None and not want.f['claimed']:
+                            problem = f'{where_}: the returned comment is not flagged as claimed'
+                        elif sorted(id(x) for x in doc) != sorted(id(x) for x in before) or \
+                                [id(x) for x in doc if x.cls != 'Placeholder'] != [id(x) for x in before if x.cls != 'Placeholder']:
+                            problem = f'{where_}: the store afterwards is not the same tokens with only placeholders moved'
+                        elif want is None and (it.splices or any(x.f.get('claimed') != (x.label.split(":")[1].startswith("claimed")) for x in side if x.cls == 'BlockComment')):
+                            problem = f'{where_}: nothing is claimed, yet the store or a claimed flag changed'
+    if n < 1500 and not problem:
+        raise AnalysisError(f'CLAIM-SEM: only {n} neighbourhoods evaluated')
+    ctx.check(not problem, rid, 'models.internal.surrounding_comments:_claim_comment', 'claims exactly the adjacent unclaimed comment',
+              f'{problem}: the attribution order (leading comment of the model below, else trailing comment of the model above, else standalone) rests on '
+              f'this function claiming the adjacent comment whenever there is one; a model parsed on its own also needs the claim to include the '
+              f'comment in its span', fn.where, note=f'{n} neighbourhoods')
